@@ -39,19 +39,19 @@ Definition lspec {D} (Pa : cpool -> parser D) (ws : list (W bytes)) (o : option 
 
 Lemma seqW_app_run {A} (l1 l2 : list (W A)) : forall s,
   seqW (l1 ++ l2) s = match seqW l1 s with
-                      | OK (b1, s1) => match seqW l2 s1 with OK (b2, s2) => OK (b1 ++ b2, s2) | ERR => ERR | PANIC => PANIC end
-                      | ERR => ERR | PANIC => PANIC
+                      | WOK (b1, s1) => match seqW l2 s1 with WOK (b2, s2) => WOK (b1 ++ b2, s2) | WERR c => WERR c | WPANIC => WPANIC end
+                      | WERR c => WERR c | WPANIC => WPANIC
                       end.
 Proof.
   induction l1 as [|m l1 IH]; intros s; cbn [app seqW].
-  - unfold ret. destruct (seqW l2 s) as [[b2 s2]| |]; reflexivity.
-  - unfold bind, ret. destruct (m s) as [[y s0]| |]; try reflexivity. rewrite IH.
-    destruct (seqW l1 s0) as [[b1 s1]| |]; try reflexivity. destruct (seqW l2 s1) as [[b2 s2]| |]; reflexivity.
+  - unfold ret. destruct (seqW l2 s) as [[b2 s2]|?c|]; reflexivity.
+  - unfold bind, ret. destruct (m s) as [[y s0]|?c|]; try reflexivity. rewrite IH.
+    destruct (seqW l1 s0) as [[b1 s1]|?c|]; try reflexivity. destruct (seqW l2 s1) as [[b2 s2]|?c|]; reflexivity.
 Qed.
 Lemma lspec_app {D} (Pa : cpool -> parser D) ws1 ws2 o1 o2 : lspec Pa ws1 o1 -> lspec Pa ws2 o2 -> lspec Pa (ws1 ++ ws2) (oapp o1 o2).
 Proof.
   intros H1 H2 s bs s' Hi. rewrite seqW_app_run.
-  destruct (seqW ws1 s) as [[b1 s1]| |] eqn:E1; try discriminate. destruct (seqW ws2 s1) as [[b2 s2]| |] eqn:E2; try discriminate.
+  destruct (seqW ws1 s) as [[b1 s1]|?c|] eqn:E1; try discriminate. destruct (seqW ws2 s1) as [[b2 s2]|?c|] eqn:E2; try discriminate.
   intros [= <- <-]. destruct (H1 _ _ _ Hi E1) as (Hi1 & He1 & d1 & -> & F1). destruct (H2 _ _ _ Hi1 E2) as (Hi2 & He2 & d2 & -> & F2).
   split; [exact Hi2|split; [eauto with pext|]]. exists (d1 ++ d2). split; [reflexivity|].
   apply Forall2_app'; [|exact F2]. eapply Forall2_impl'; [|exact F1]. intros d b Hd. exact (decodes_mono Pa d _ _ b He2 Hd).
@@ -68,11 +68,11 @@ Proof.
   intros H. unfold lspec. cbn [seqW]. eapply wspec_bind; [exact H|]. intros b p0 (x & -> & Hd).
   apply wspec_ret. intros p He. exists [f x]. split; [reflexivity|]. constructor; [exact (decodes_mono Pa (f x) p0 p b He Hd)|constructor].
 Qed.
-Lemma seqW_length {A} (ws : list (W A)) : forall s bs s', seqW ws s = OK (bs, s') -> length bs = length ws.
+Lemma seqW_length {A} (ws : list (W A)) : forall s bs s', seqW ws s = WOK (bs, s') -> length bs = length ws.
 Proof.
   induction ws as [|m ws IH]; intros s bs s'; cbn [seqW].
   - unfold ret. intros [= <- _]. reflexivity.
-  - unfold bind, ret. destruct (m s) as [[y s0]| |]; try discriminate. destruct (seqW ws s0) as [[ys s1]| |] eqn:E; try discriminate.
+  - unfold bind, ret. destruct (m s) as [[y s0]|?c|]; try discriminate. destruct (seqW ws s0) as [[ys s1]|?c|] eqn:E; try discriminate.
     intros [= <- _]. cbn [length]. rewrite (IH _ _ _ E). reflexivity.
 Qed.
 Lemma wattrs_lspec {D} (Pa : cpool -> parser D) ws o : lspec Pa ws o ->
@@ -111,7 +111,7 @@ Ltac shape2 HP := intros ?c ?b ?x HP; eexists; split; [reflexivity|]; unfold pbi
 Definition fa_lines (labs : labmap) (l : list (label * Z)) : option (list (Z * Z)) :=
   mapO (fun e => omap (fun p => (p, snd e)) (lget labs (fst e))) l.
 Lemma lnt_spec labs l : lbounded labs -> forallb (fun e => u16ok (snd e)) l = true ->
-  wspec (wattr s_LineNumberTable (wslice16 (fun e => p <- lift_out (try_get labs (fst e)) ;; ret (be16 p ++ be16 (snd e))) l))
+  wspec (wattr s_LineNumberTable (wslice16 (fun e => p <- lift_out (ELabel labs [fst e]) (try_get labs (fst e)) ;; ret (be16 p ++ be16 (snd e))) l))
         (fun p b => exists x, fa_lines labs l = Some x /\ decodes (p_attr0 AtCode) (ALineNumberTable x) p b).
 Proof.
   intros Hlb Hok. rewrite p_attr0_eq.
@@ -423,6 +423,8 @@ Lemma lower_insn_spec i : cinsn_ok i = true -> wspec (lower_insn i) (fun _ _ => 
 Proof.
   destruct i; cbn [lower_insn cinsn_ok]; intros Hok; try (apply wspec_ret; intros; exact I).
   - eapply wspec_bind; [apply put_iconst_spec, Hok|]. intros x p0 _. apply wspec_ret. intros; exact I.
+  - eapply wspec_bind; [apply put_imethodref_spec|]. intros x p0 _.
+    eapply wspec_bind; [apply wspec_lift_res; intros; exact I|]. intros n p1 _. apply wspec_ret. intros; exact I.
   - eapply wspec_bind; [apply put_loadable_spec, Hok|]. intros x p0 _. apply wspec_ret. intros; exact I.
 Qed.
 Lemma lower_all_spec (is : list (option label * option cframe * cinsn)) :
@@ -465,7 +467,7 @@ Definition fa_exc (labs : labmap) (x : cexception) : option (Z * Z * Z * option 
 Definition pe_exc (c : cpool) : parser (Z * Z * Z * option bytes) :=
   s <~ p_u16 ;; e <~ p_u16 ;; h <~ p_u16 ;; ct <~ p_idx (get_opt get_class) c ;; pret (s, e, h, ct).
 Lemma exc_spec labs x : lbounded labs ->
-  wspec (t <- lift_out (try_get3 labs (x_start x, x_end x, x_handler x)) ;; ct <- put_opt put_class (x_catch x) ;;
+  wspec (t <- lift_out (ELabel labs [x_start x; x_end x; x_handler x]) (try_get3 labs (x_start x, x_end x, x_handler x)) ;; ct <- put_opt put_class (x_catch x) ;;
          ret (be16 (fst (fst t)) ++ be16 (snd (fst t)) ++ be16 (snd t) ++ be16 ct))
         (fun p b => exists y, fa_exc labs x = Some y /\ decodes pe_exc y p b).
 Proof.
@@ -489,7 +491,7 @@ Lemma code_attrs_spec c labs pos :
     (nattr (cframes_at pos (c_insns c)) (fun frs => wattr s_StackMapTable (
                          n <- w_u16len (zlen frs) ;; fb <- w_frames labs None frs ;; ret (n ++ concat fb))) ++
      oattr (c_lines c) (fun l => wattr s_LineNumberTable (
-                         wslice16 (fun e => p <- lift_out (try_get labs (fst e)) ;; ret (be16 p ++ be16 (snd e))) l)) ++
+                         wslice16 (fun e => p <- lift_out (ELabel labs [fst e]) (try_get labs (fst e)) ;; ret (be16 p ++ be16 (snd e))) l)) ++
      match c_locals c with
      | None => []
      | Some lvs =>
@@ -542,9 +544,9 @@ Proof.
   apply lspec_Forall2. apply wunknowns_spec0. assumption.
 Qed.
 
-Lemma wspec_err {A} (Q : pool -> A -> Prop) : wspec (fun _ : wst => @ERR (A * wst)) Q.
+Lemma wspec_err {A} c (Q : pool -> A -> Prop) : wspec (@werr A c) Q.
 Proof. intros s a s' _ H. discriminate. Qed.
-Lemma wspec_panic {A} (Q : pool -> A -> Prop) : wspec (fun _ : wst => @PANIC (A * wst)) Q.
+Lemma wspec_panic {A} (Q : pool -> A -> Prop) : wspec (fun _ : wst => @WPANIC (A * wst)) Q.
 Proof. intros s a s' _ H. discriminate. Qed.
 
 Lemma oapp_some {A} (a b : option (list A)) r : oapp a b = Some r -> exists x y, a = Some x /\ b = Some y /\ r = x ++ y.
